@@ -267,6 +267,43 @@ theorem pick_is_valid_segment (l r : Int) (hlr : l ≤ r) (ops : List Int) (xi :
 example : ValidSeg 0 2 [-1, 1, -1, 1, 1, -1] (2, 5, 2) :=
   pick_is_valid_segment 0 2 (by decide) _ (1 / 2) _ (by decide +kernel)
 
+/-- **The sub-path seeding a wire-fencing move is a valid sub-path of [λ_i, cap).**  Whatever ξ is drawn,
+    when the move does not stop with "NSG" the segment it shoots from is a valid sub-path between the
+    ensemble's own interface and the cap (the last interface when no cap is configured), and the
+    sub-ensemble it shoots in is `[λ_i, λ_i, cap]`. -/
+theorem wf_move_seed_valid (i1 i2 : Int) (cap : Option Int) (hc : i1 ≤ cap.getD i2) (ops : List Int)
+    (xi : Rat) (m : MoveSeed) (h : wfMoveSeed i1 i2 cap ops xi = some m) :
+    ValidSeg i1 (cap.getD i2) ops m.seg ∧ m.subIntf = [i1, i1, cap.getD i2] := by
+  unfold wfMoveSeed at h
+  simp only [Option.map_eq_some_iff] at h
+  obtain ⟨seg, hp, rfl⟩ := h
+  exact ⟨pick_is_valid_segment i1 (cap.getD i2) hc ops xi seg hp, rfl⟩
+
+/-- the move stops without MD exactly when the weight below the cap is 0 (for a draw ξ ≤ 1) -/
+theorem wf_move_seed_none_iff (i1 i2 : Int) (cap : Option Int) (ops : List Int) (xi : Rat) (hx : xi ≤ 1) :
+    wfMoveSeed i1 i2 cap ops xi = none ↔ weight i1 (cap.getD i2) ops = 0 := by
+  unfold wfMoveSeed
+  simp only [Option.map_eq_none_iff]
+  constructor
+  · intro h
+    by_cases hw : weight i1 (cap.getD i2) ops = 0
+    · exact hw
+    · exact absurd h (by
+        have := pick_total i1 (cap.getD i2) ops xi hx (Nat.pos_of_ne_zero hw)
+        intro hn; rw [hn] at this; simp at this)
+  · intro h
+    unfold pick
+    simp only []
+    unfold weight at h
+    simp [h]
+
+-- a capped move: the path reaches the cap 3 below the last interface 5; the seed is cut at the cap
+example : wfMoveSeed 1 5 (some 3) [0, 1, 2, 4, 2, 1, 0] (1 / 2) = some { subIntf := [1, 1, 3], seg := (0, 3, 2) } := by
+  decide +kernel
+example : ValidSeg 1 3 [0, 1, 2, 4, 2, 1, 0] (0, 3, 2) :=
+  (wf_move_seed_valid 1 5 (some 3) (by decide) [0, 1, 2, 4, 2, 1, 0] (1 / 2)
+    { subIntf := [1, 1, 3], seg := (0, 3, 2) } (by decide +kernel)).1
+
 /-! ### the weight vector -/
 
 /-- `compute_weight` for `wf`: the scan weight, doubled iff start side ≠ end side
